@@ -13,6 +13,7 @@ CONSTANTS
   Weak_QuorumGE = FALSE
   Weak_LightCountsNil = FALSE
   Weak_NoDoubleSignCheck = FALSE
+  Weak_SeenByCommitSlotRange = FALSE
   Weak_NoBlockIDCheck = FALSE
   Weak_SignBytesIgnoreRound = FALSE
 INIT CaseInit
